@@ -448,6 +448,18 @@ class Assign(Statement, AssignBase):
     def expression(self):
         return self.rhs
 
+    def get_read_variables(self):
+        result = super().get_read_variables()
+
+        # Loop bounds are read, too.
+        get_deps = self.get_dependency_mapper()
+        for _ident, start, end in self.loops:
+            for bound in (start, end):
+                result = result | frozenset(
+                        dep.name for dep in get_deps(bound))
+
+        return result
+
     def map_expressions(self, mapper, include_lhs=True):
         return (super()
                 .map_expressions(mapper, include_lhs=include_lhs)
